@@ -162,6 +162,24 @@ def run(chk):
                 fails.append((f"{fam_name}:unknown_name", {"note": "no KeyError"}))
             except KeyError:
                 pass
+        # what a caller does to a shape it was given must not leak into later results: iterate / look up, resize and move the
+        # shapes handed out, then iterate / look up again and compare with the tabulated coordinates
+        for fam_name, fam in fams.items():
+            some = list(fam.names)[:5 if fam_name != "PlatonicFamily" else None]
+            handed = [s for k, s in fam if k in some] + [fam.get_shape(k) for k in some]
+            for s in handed:
+                s.volume = 8.0 * s.volume
+                s.centroid = np.asarray(s.centroid, float) + np.array([1.0, 2.0, 3.0])
+            again = {k: s for k, s in fam if k in some}
+            for k in some:
+                n += 1
+                raw = np.asarray(fam.data[k]["vertices"], float)
+                for how, s in (("iteration", again[k]), ("get_shape", fam.get_shape(k))):
+                    v = np.asarray(s.vertices, float)
+                    if v.shape != raw.shape or not np.allclose(v, raw, atol=1e-9):
+                        fails.append((f"{fam_name}/{k}:{how}_after_a_caller_modified_an_earlier_result",
+                                      {"history": ["iterate and get_shape", "volume *= 8 and centroid += (1,2,3) on the shapes handed out",
+                                                   f"{how} again"], "max_deviation_from_table": float(np.abs(v - raw).max()) if v.shape == raw.shape else None}))
         # DOI repositories
         repo = F.DOI_SHAPE_REPOSITORIES["10.1126/science.1220869"][0]
         names = list(repo.names)
